@@ -332,3 +332,107 @@ Proof.
   intros Hr Ht Hin Hs. destruct (monitor_session_on_model _ _ _ _ _ _ _ _ Hr Ht Hin Hs) as [u [_ [_ H]]].
   rewrite H, Nat.eqb_refl. apply session_eqb_eq. reflexivity.
 Qed.
+
+(* ---------- attribution: every failing clause on the model's prediction is explained ---------- *)
+
+(* only callers that asked a session-keyed question own a session record *)
+Lemma wsession_only_for_session_questions tr w :
+  wreach tr w -> forall t, wsession w t <> None -> exists q s, wquestion w t = Some q /\ q_session q = Some s.
+Proof.
+  intros H. apply (wreach_ind (fun _ w => forall t, wsession w t <> None ->
+                     exists q s, wquestion w t = Some q /\ q_session q = Some s)) with (tr := tr); [ | | exact H].
+  - intros t Ht. exfalso. apply Ht. reflexivity.
+  - intros tr0 w0 e w' Hr IH Hs t Ht.
+    pose proof (wreach_winv _ _ Hr) as W. pose proof (wstep_erase _ _ _ Hs) as Hg. apply step_cases in Hg.
+    destruct e as [t1 q|t1 r u|t1|t1]; unfold wstep in Hs; unfold erase in Hg.
+    + destruct (step (w_g w0) (Enter t1 (wrapper_key q))) as [g'|]; [|discriminate]. inversion Hs; subst w'. clear Hs.
+      assert (Hfresh : thread (w_g w0) t1 = None) by (inversion Hg; assumption).
+      unfold wsession, wquestion in *. cbn [w_sess w_q] in *. nateq t t1.
+      * rewrite nat_look_eq. destruct (q_session q) as [s|] eqn:Eq; [eauto|].
+        exfalso. destruct (IH _ Ht) as [q0 [s0 [Hq0 _]]].
+        apply (wi_dom _ _ W t1); [unfold wquestion; congruence | exact Hfresh].
+      * rewrite nat_look_neq by assumption. apply IH.
+        destruct (q_session q); [rewrite nat_look_neq in Ht by assumption|]; exact Ht.
+    + destruct (step (w_g w0) (FnReturn t1 r)) as [g'|]; [|discriminate]. inversion Hs; subst w'. clear Hs.
+      unfold wsession, wquestion in *. cbn [w_sess w_q] in *. apply IH.
+      destruct (alookup Nat.eqb t1 (w_sess w0)) as [s1|] eqn:E1; [|exact Ht].
+      nateq t t1; [rewrite E1; discriminate | rewrite nat_look_neq in Ht by assumption; exact Ht].
+    + destruct (step (w_g w0) (Cleanup t1)) as [g'|]; [|discriminate]. inversion Hs; subst w'. apply IH. exact Ht.
+    + destruct (step (w_g w0) (Wake t1)) as [g'|]; [|discriminate]. inversion Hs; subst w'. apply IH. exact Ht.
+Qed.
+
+(* what the monitor's look-ups resolve to on a run of the wrapper model *)
+Lemma clauses_resolve tr w t :
+  wreach tr w -> thread (w_g w) t <> None ->
+  exists c q qc, in_call (w_g w) t c /\ in_call (w_g w) c c /\
+    In (WEnter t q) tr /\ In (WEnter c qc) tr /\
+    spec_leader (map erase tr) t = Some c /\ question_of tr t = Some q /\ question_of tr c = Some qc.
+Proof.
+  intros Hr Ht. pose proof (wreach_erase _ _ Hr) as Hg.
+  pose proof (reach_inv _ _ Hg) as I. pose proof (reach_tinv _ _ Hg) as T. pose proof (reach_sim _ _ Hg) as S.
+  assert (exists c, in_call (w_g w) t c /\ in_call (w_g w) c c /\ lead_of (w_g w) t = Some c) as [c [Hic [Hcc Hl]]].
+  { unfold lead_of, in_call. destruct (thread (w_g w) t) as [[| |x|x y z]|] eqn:E; try contradiction.
+    - exists t. rewrite E. auto.
+    - exists t. rewrite E. auto.
+    - exists x. destruct (inv_following _ I _ _ E) as [_ [cl [Hcl _]]]. split; [reflexivity|]. split; [|reflexivity].
+      apply (inv_call _ I _ _ Hcl).
+    - exists x. destruct (inv_returned _ I _ _ _ _ E) as [cl [Hcl _]]. split; [reflexivity|]. split; [|reflexivity].
+      apply (inv_call _ I _ _ Hcl). }
+  destruct (ti_entered _ _ T _ Ht) as [k Hk]. apply in_erase_enter in Hk as [q [Hin _]].
+  destruct (ti_entered _ _ T _ (in_call_some _ _ _ Hcc)) as [kc Hkc]. apply in_erase_enter in Hkc as [qc [Hinc _]].
+  exists c, q, qc. repeat split; auto.
+  - unfold spec_leader. rewrite (sim_lead _ _ S). exact Hl.
+  - eapply wquestion_is_question_of; eauto.
+  - eapply wquestion_is_question_of; eauto.
+Qed.
+
+(* a failing subject clause on the model's prediction always carries the C16-K2 signature:
+   the caller's or its leader's question violates the guard *)
+Theorem monitor_subject_failure_explained tr w t :
+  wreach tr w -> (forall q, In q (questions tr) -> wf_question q = true) ->
+  thread (w_g w) t <> None -> guard_clause tr t = true -> subject_clause tr t = true.
+Proof.
+  intros Hr Hwf Ht Hg. destruct (clauses_resolve _ _ _ Hr Ht) as [c [q [qc [Hic [Hcc [Hin [Hinc [Hl [Hq Hqc]]]]]]]]].
+  unfold guard_clause in Hg. unfold subject_clause. rewrite Hl, Hq, Hqc in *.
+  apply andb_true_iff in Hg as [G1 G2].
+  rewrite (merged_same_subject tr w t c c q qc); auto; try apply subject_eqb_refl;
+    apply Hwf; eapply in_questions; eauto.
+Qed.
+
+(* a failing session clause on the model's prediction always carries the C16-K1 signature:
+   the caller is a merged follower of a session-keyed call *)
+Theorem monitor_session_failure_explained tr w t c r n :
+  wreach tr w -> thread (w_g w) t = Some (Returned c r n) ->
+  session_clause tr t (wsession w t) = true \/ (is_follower tr t = true /\ has_session_question tr t = true).
+Proof.
+  intros Hr Ht. assert (Hne : thread (w_g w) t <> None) by (rewrite Ht; discriminate).
+  destruct (clauses_resolve _ _ _ Hr Hne) as [c' [q [qc [Hic [Hcc [Hin [Hinc [Hl [Hq Hqc]]]]]]]]].
+  unfold in_call in Hic. rewrite Ht in Hic. subst c'.
+  destruct (q_session q) as [s0|] eqn:Es.
+  - destruct (monitor_session_on_model _ _ _ _ _ _ _ _ Hr Ht Hin Es) as [u [_ [_ Hc]]].
+    nateq c t.
+    + left. rewrite Hc, Nat.eqb_refl. apply session_eqb_eq. reflexivity.
+    + right. unfold is_follower, has_session_question. rewrite Hl, Hq, Es.
+      apply Nat.eqb_neq in E. rewrite E. auto.
+  - left. unfold session_clause. rewrite Hq, Es.
+    destruct (wsession w t) as [s|] eqn:Ew; [|reflexivity]. exfalso.
+    destruct (wsession_only_for_session_questions _ _ Hr t) as [q' [s' [Hq' Hs']]]; [rewrite Ew; discriminate|].
+    pose proof (wi_question _ _ (wreach_winv _ _ Hr) _ _ Hin) as Hq2. congruence.
+Qed.
+
+(* ATTRIBUTION LEMMA: on every run of the wrapper model, every failing clause of the monitor —
+   for every returned caller — is explained by the signature of a listed finding. Hence a case on
+   which the implementation's observation equals the model's prediction (no mismatch) and the
+   generic clause holds is never left unattributed by Corr_C16.judge. *)
+Theorem monitor_failures_explained tr w t c r n :
+  wreach tr w -> (forall q, In q (questions tr) -> wf_question q = true) ->
+  thread (w_g w) t = Some (Returned c r n) ->
+  clause_failures_explained tr t (wsession w t) = true.
+Proof.
+  intros Hr Hwf Ht. unfold clause_failures_explained. apply andb_true_iff. split.
+  - destruct (guard_clause tr t) eqn:G; [|apply orb_true_r].
+    rewrite (monitor_subject_failure_explained tr w t); auto. rewrite Ht. discriminate.
+  - destruct (monitor_session_failure_explained _ _ _ _ _ _ Hr Ht) as [H|[H1 H2]].
+    + rewrite H. reflexivity.
+    + rewrite H1, H2. apply orb_true_r.
+Qed.
